@@ -12,6 +12,7 @@ import (
 	"io"
 	"net"
 	"sync"
+	"sync/atomic"
 	"time"
 
 	"mellium.im/xmlstream"
@@ -37,9 +38,13 @@ type stanzaWriter struct {
 	seq           uint16
 	to            jid.JID
 	writeDeadline time.Time
+	aborted       atomic.Bool
 }
 
 func (w *stanzaWriter) Write(p []byte) (int, error) {
+	if w.aborted.Load() {
+		return 0, io.ErrClosedPipe
+	}
 	data := dataPayload{
 		Seq:  w.seq,
 		SID:  w.sid,
@@ -109,6 +114,7 @@ type Conn struct {
 	s              *xmpp.Session
 	writeBuf       *bufio.Writer
 	seq            uint16
+	closeLock      sync.Mutex
 	closed         bool
 	stanzaWriter   *stanzaWriter
 	maxBufSize     int
@@ -198,13 +204,29 @@ func (c *Conn) Read(b []byte) (n int, err error) {
 // Write can be made to time out and return an Error with Timeout() == true
 // after a fixed time limit; see SetDeadline and SetWriteDeadline.
 func (c *Conn) Write(b []byte) (n int, err error) {
-	if c.closed {
-		return 0, io.EOF
-	}
 	c.writeLock.Lock()
 	defer c.writeLock.Unlock()
+	if c.isClosed() {
+		return 0, io.EOF
+	}
 
 	return c.writeBuf.Write(b)
+}
+
+func (c *Conn) isClosed() bool {
+	c.closeLock.Lock()
+	defer c.closeLock.Unlock()
+	return c.closed
+}
+
+// markClosed marks the connection as closed and reports whether it was closed
+// already.
+func (c *Conn) markClosed() bool {
+	c.closeLock.Lock()
+	defer c.closeLock.Unlock()
+	was := c.closed
+	c.closed = true
+	return was
 }
 
 // LocalAddr returns the local network address of the underlying XMPP session.
@@ -227,17 +249,8 @@ func (c *Conn) Size() int {
 // Flush writes any buffered data to the underlying io.Writer.
 // This may result in data transfer less than the block size.
 func (c *Conn) Flush() error {
-	return c.flush(nil)
-}
-
-func (c *Conn) flush(t xmlstream.Encoder) error {
-	if t == nil {
-		c.writeLock.Lock()
-		defer c.writeLock.Unlock()
-		return c.writeBuf.Flush()
-	}
-
-	c.stanzaWriter.t = t
+	c.writeLock.Lock()
+	defer c.writeLock.Unlock()
 	return c.writeBuf.Flush()
 }
 
@@ -245,17 +258,17 @@ func (c *Conn) flush(t xmlstream.Encoder) error {
 // Any blocked Read or Write operations will be unblocked and return errors.
 // If the write buffer contains data it will be flushed.
 func (c *Conn) Close() error {
-	if c.closed {
+	if c.markClosed() {
 		return nil
 	}
-	c.closed = true
 
 	// Flush any remaining data to be written.
-	err := c.Flush()
-	if err != nil {
-		return err
+	c.writeLock.Lock()
+	err := c.writeBuf.Flush()
+	if err == nil {
+		err = c.closeFlushFunc()
 	}
-	err = c.closeFlushFunc()
+	c.writeLock.Unlock()
 	if err != nil {
 		return err
 	}
@@ -295,14 +308,26 @@ func (c *Conn) closeRead() {
 }
 
 func (c *Conn) closeNoNotify(t xmlstream.Encoder) error {
-	if c.closed {
+	if c.markClosed() {
 		return nil
 	}
-	c.closed = true
 	defer c.closeRead()
 
-	// Flush any remaining data to be written.
-	err := c.flush(t)
+	// We are called from the goroutine that serves the session. If a Write is in
+	// progress it holds the write lock and may be waiting for an acknowledgement
+	// that only this goroutine can deliver, so do not wait for it: make it stop
+	// after the packet it is sending. What it had not sent is reported to its
+	// caller as not written.
+	if !c.writeLock.TryLock() {
+		c.stanzaWriter.aborted.Store(true)
+		return nil
+	}
+	defer c.writeLock.Unlock()
+
+	// Flush any remaining data to be written, on the encoder we were given (the
+	// session is busy with the request being handled).
+	c.stanzaWriter.t = t
+	err := c.writeBuf.Flush()
 	if err != nil {
 		return err
 	}
